@@ -59,8 +59,8 @@ THold ==
            S == ToSet(Ev.args.S)
            r == SnapHoldNext(hold, lastRefresh, now, g, S, 0, LAuto)
        IN /\ TakeLogged
-          /\ Strict => (Same(r.hold, lastRefresh, now) /\ Ev.res.ok = r.ok /\ Ev.res.rem = r.remaining)
-          /\ History("Hold", g, S, ~Ev.res.ok, sysReq)
+          /\ Strict => (Same(r.hold, lastRefresh, now) /\ Ev.res.ok = r.ok /\ (Ev.res.rem = -1 \/ Ev.res.rem = r.remaining))
+          /\ History("Hold", g, S, ~Ev.res.ok, sysReq)   \* rem = -1: not observable (hook error path)
 
 THoldFor ==
     /\ IsEv("HoldFor")
